@@ -20,7 +20,7 @@ class Contract:
                  raises=(), locals=None, loops=None, defn=None, modifies=(), kind="function",
                  status="verify", impl_of=None, self_guard=None, defaults=None, ensures_on_raise=(),
                  attrs=None, is_lemma=False, note="", total=None, properties=(), inline=False, use_at_end=(), opaque=(),
-                 aliases_ok=(), use_at_start=(), cases=(), view=None, pure=False, payloads=None, ghost_asserts=()):
+                 aliases_ok=(), use_at_start=(), cases=(), view=None, pure=False, payloads=None, ghost_asserts=(), returns_nodup=False):
         self.key = key
         self.module = module
         self.qualname = qualname or key
@@ -51,6 +51,7 @@ class Contract:
         self.use_at_start = list(use_at_start)
         self.cases = list(cases)              # Boolean parameter fields to split on (verified once per valuation)
         self.ghost_asserts = list(ghost_asserts)  # proof hints: asserted (as obligations) and then assumed at a normal return, on the paths where their locals exist
+        self.returns_nodup = returns_nodup    # the returned LIST has no duplicates (established structurally when the function is verified; lets callers use len() as cardinality)
         self.payloads = payloads or {}        # exception name -> spec expression of the message (args[0]) of the raised exception
         self.pure = pure                      # result is a function of the arguments: every call denotes the same uninterpreted application
         self.view = view                      # None: names opaque; 'string': names are strings (PYVC_NODE=str)
@@ -636,7 +637,28 @@ class Registry:
         et = elt.t
         y = z3.Const(fresh_name("y"), sort_of(et))
         body = z3.Exists(items["consts"], z3.And(items["member"], y == to_term(elt)))
-        return [(st, V((kind, et), eng.mkset(st, [y], body)))]
+        arr = eng.mkset(st, [y], body)
+        if self._comp_is_duplicate_free(eng, node, st):
+            eng.nodup.add(arr.get_id())
+            eng._nodup_keep.append(arr)
+        return [(st, V((kind, et), arr))]
+
+    def _comp_is_duplicate_free(self, eng, node, st):
+        """[k for k, v in d.items() if ...] / [k for k in d ...] / [x for x in <set> ...]: one generator over a duplicate-free source, the element is
+        the iteration variable (the key) itself -> the resulting LIST has no duplicates, so its len() is the cardinality of its element set."""
+        if len(node.generators) != 1 or isinstance(node, ast.DictComp) or not isinstance(node.elt, ast.Name):
+            return False
+        g = node.generators[0]
+        it = g.iter
+        if isinstance(it, ast.Call) and isinstance(it.func, ast.Attribute) and it.func.attr in ("items", "keys") and not it.args:
+            src = eng.ev1(it.func.value, st)
+            if src.t[0] != "dict":
+                return False
+            key_name = g.target.elts[0].id if (it.func.attr == "items" and isinstance(g.target, ast.Tuple) and isinstance(g.target.elts[0], ast.Name)) else \
+                (g.target.id if it.func.attr == "keys" and isinstance(g.target, ast.Name) else None)
+            return key_name is not None and node.elt.id == key_name
+        src = eng.ev1(it, st)
+        return src.t[0] in ("set", "dict") and isinstance(g.target, ast.Name) and node.elt.id == g.target.id
 
     def dict_comprehension(self, eng, node, st):
         items = self.comp_items(eng, node, st)
@@ -869,6 +891,9 @@ class Registry:
                 res = VNONE
             else:
                 res = fresh(c.returns, c.key.split(".")[-1].strip("_") or "r")
+                if c.returns_nodup and res.t[0] in ("bag", "set"):
+                    eng.nodup.add(res.x.get_id())
+                    eng._nodup_keep.append(res.x)
             eng.result = res
             # ensures of the form  <modified param>.a.b == expr  are applied as assignments (the equality would
             # force the value anyway); this keeps post-state fields the very terms the specification talks about
